@@ -299,6 +299,9 @@ class Ctx:
         for f in os.listdir(BIN):
             if f.startswith(prefix) and len(f) == len(prefix) + 16:
                 try:
+                    # a build of the last hour may be in use by a concurrent run of the same check against another tree
+                    if time.time() - os.path.getmtime(os.path.join(BIN, f)) < 3600:
+                        continue
                     os.unlink(os.path.join(BIN, f))
                 except OSError:
                     pass
